@@ -7,7 +7,10 @@ import (
 	"math/rand"
 	"strings"
 
+	kmip "github.com/smira/go-kmip"
+
 	"kvharness/internal/drv"
+	"kvharness/internal/gen"
 )
 
 // chunkSrc hands out exactly one scripted chunk (or its prefix, if the buffer is shorter) per Read; an empty chunk is a
@@ -293,4 +296,100 @@ func hxd(b []byte) string {
 		return "-"
 	}
 	return hx(b)
+}
+
+type countingReader struct {
+	r io.Reader
+	n int
+}
+
+func (c *countingReader) Read(p []byte) (int, error) {
+	n, err := c.r.Read(p)
+	c.n += n
+	return n, err
+}
+
+// decStackCorrespondence ties lean/KmipModel/DecodeStack.lean - decode.go over the REAL reader stack, the model the
+// fragmentation theorems of C06 are about - to the code: valid and mutated messages, each cut into random chunks (empty reads,
+// single bytes, the last data with the final error attached, EOF or an I/O error at the end, runs of empty reads), handed to a
+// real Decoder as a plain io.Reader; compared on the outcome class, the decoded value, and the number of bytes the Decoder's
+// own bufio has fetched from the transport by the time Decode returns (read-ahead included).
+func decStackCorrespondence(r *Result, d *drv.Driver, g *gen.G, inputs []decInput) {
+	types := allDecodeTypes()
+	type tc struct{ line, real, origin string }
+	var cases []tc
+	for _, in := range inputs {
+		if len(in.data) > 6000 {
+			continue
+		}
+		data := in.data
+		// a continuation after the message (the start of a next one, or junk) in some cases: read-ahead becomes visible
+		if g.R.Intn(3) == 0 {
+			data = append(append([]byte(nil), data...), 0x42, 0x00, 0x78, 0x01, 0, 0, 0, 0x10, 1, 2, 3)
+		}
+		var chunks [][]byte
+		var parts []string
+		pos := 0
+		for pos < len(data) {
+			if g.R.Intn(7) == 0 {
+				k := 1
+				if g.R.Intn(40) == 0 {
+					k = 99 + g.R.Intn(3)
+				}
+				for z := 0; z < k; z++ {
+					chunks = append(chunks, []byte{})
+					parts = append(parts, "-")
+				}
+			}
+			n := 1 + g.R.Intn(40)
+			switch g.R.Intn(4) {
+			case 0:
+				n = 1
+			case 1:
+				n = 1 + g.R.Intn(9)
+			}
+			if n > len(data)-pos {
+				n = len(data) - pos
+			}
+			chunks = append(chunks, append([]byte(nil), data[pos:pos+n]...))
+			parts = append(parts, hx(data[pos:pos+n]))
+			pos += n
+		}
+		finName, fin := "eof", io.EOF
+		if g.R.Intn(4) == 0 {
+			finName, fin = "ioerr", errInjectedIO
+		}
+		eager := g.R.Intn(2) == 0
+		cs := "."
+		if len(parts) > 0 {
+			cs = strings.Join(parts, ";")
+		}
+		e := 0
+		if eager {
+			e = 1
+		}
+		cr := &countingReader{r: &chunkSrc{chunks: chunks, fin: fin, eager: eager}}
+		o := decodeWith(kmip.NewDecoder(cr), types[in.typ])
+		real := o.class
+		if o.class == "ok" {
+			real = fmt.Sprintf("ok %s pulled=%d", o.value, cr.n)
+		}
+		cases = append(cases, tc{fmt.Sprintf("decstk %s %s %d %s", in.typ, finName, e, cs), real, in.origin})
+	}
+	lines := make([]string, len(cases))
+	for i, c := range cases {
+		lines[i] = c.line
+	}
+	replies, err := d.AskAll(lines)
+	if err != nil {
+		r.find(Finding{Kind: "disagreement", What: "driver failure (decstk)", Input: err.Error()})
+		return
+	}
+	for i, c := range cases {
+		r.eval(c.line, true)
+		r.Stats["decstk:"+strings.Fields(c.real)[0]]++
+		if replies[i] != c.real {
+			r.find(Finding{Kind: "disagreement", What: "the decoder-over-the-reader-stack model differs from the real Decode (" + c.origin + ")", Input: c.line, Expect: replies[i], Actual: c.real})
+		}
+	}
 }
